@@ -443,6 +443,83 @@ func init() {
 							return fail("the body's context was cancelled although no future-cancel succeeded")
 						}
 					}
+					// the status operations taken together: done?, cancelled? and cancel results must admit one order,
+					// consistent with real time (an operation that returned before another was invoked comes first),
+					// over the sequential future {running -> completed | cancelled}: the body's completion may be placed
+					// anywhere (or nowhere); cancel on a running future cancels it and answers true, on a completed one
+					// answers false and changes nothing, on a cancelled one answers true; a cancel still pending may
+					// have taken effect or not
+					{
+						type fop struct {
+							inv, ret int
+							kind     int
+							res      string
+							pending  bool
+						}
+						var fops []fop
+						for _, h := range st.hist {
+							if h.op < 1 || h.op > 3 {
+								continue
+							}
+							if h.done {
+								fops = append(fops, fop{h.inv, h.ret, h.op, h.result, false})
+							} else if h.op == 3 && h.inv > 0 {
+								fops = append(fops, fop{h.inv, 1 << 30, h.op, "", true})
+							}
+						}
+						var rec func(placed uint, state int) bool
+						rec = func(placed uint, state int) bool {
+							all := true
+							for i, x := range fops {
+								if placed&(1<<uint(i)) == 0 && !x.pending {
+									all = false
+								}
+							}
+							if all {
+								return true
+							}
+							for i, x := range fops {
+								if placed&(1<<uint(i)) != 0 {
+									continue
+								}
+								first := true
+								for j, y := range fops {
+									if j != i && placed&(1<<uint(j)) == 0 && y.ret < x.inv {
+										first = false
+									}
+								}
+								if !first {
+									continue
+								}
+								// the body's completion may happen just before this operation
+								starts := []int{state}
+								if state == 0 {
+									starts = append(starts, 1)
+								}
+								for _, s0 := range starts {
+									s1, want := s0, ""
+									switch x.kind {
+									case 1:
+										want = fmt.Sprint(s0 != 0)
+									case 2:
+										want = fmt.Sprint(s0 == 2)
+									case 3:
+										if s0 == 0 {
+											s1 = 2
+										}
+										want = fmt.Sprint(s1 == 2)
+									}
+									if (x.pending || want == x.res) && rec(placed|1<<uint(i), s1) {
+										return true
+									}
+								}
+							}
+							return false
+						}
+						if len(fops) > 0 && len(fops) <= 8 && !rec(0, 0) {
+							return fail("future-done? / future-cancelled? / future-cancel results admit no single order of one future's status (not linearizable)")
+						}
+					}
 					// a cancel invoked after the future completed (body goroutine finished) and without
 					// an earlier successful cancel must return false and change nothing
 					for _, c := range cancels {
